@@ -132,10 +132,13 @@ class Index:
         if not self.has_time:
             # the keys carry no time; the matcher checks the time range
             since = until = None
-        if until is not None:
-            add_time = b"%s\x00" % until
+        # seek just past the newest entry wanted: entries continue with \x00 after the time
+        if not self.has_time:
+            add_time = b"\x01"
+        elif until is not None:
+            add_time = b"%s\x01" % until
         else:
-            add_time = b""
+            add_time = b"\xff\xff\xff\xff\x01"
 
         prev = cursor.prev
         get_key = cursor.key
@@ -148,7 +151,7 @@ class Index:
                     match = next(matchiter)
                 except StopIteration:
                     return None, None
-                skipped = cursor.set_range(match + add_time + b"\xff")
+                skipped = cursor.set_range(match + add_time)
                 if skipped:
                     prev()
                 return match, skipped
